@@ -55,11 +55,12 @@ var vxClock int
 // ---- scripted implementation ----
 
 const (
-	vxOutOK      = 0 // answer with the matching R-message
-	vxOutErr     = 1 // answer with an error
-	vxOutNone    = 2 // do not answer (request stays "saved")
-	vxOutTwice   = 3 // answer, then answer again
-	vxOutPartial = 4 // walk only: return fewer qids than names
+	vxOutOK        = 0 // answer with the matching R-message
+	vxOutErr       = 1 // answer with an error
+	vxOutNone      = 2 // do not answer (request stays "saved")
+	vxOutTwice     = 3 // answer, then answer again
+	vxOutPartial   = 4 // walk only: return fewer qids than names
+	vxOutTwiceConc = 5 // two goroutines of the implementation answer the same request at the same time
 )
 
 type vxCall struct {
@@ -76,30 +77,30 @@ type vxCall struct {
 }
 
 type vxOps struct {
-	calls     []vxCall
-	destroyed []*SrvFid
-	destroyNo []uint32
-	outcome   int
-	partialN  int
-	qid       Qid
-	data      []byte
-	dir       *Dir
-	count     uint32
-	errText   string
-	authErr   error
-	authCalls []vxCall
-	flushed   []*SrvReq
-	flushCall bool // FlushOp calls req.Flush()
-	hook      func(op string, req *SrvReq)
-	opened    int
-	closed    int
-	lockViol  int
-	echo      bool
+	calls      []vxCall
+	destroyed  []*SrvFid
+	destroyNo  []uint32
+	outcome    int
+	partialN   int
+	qid        Qid
+	data       []byte
+	dir        *Dir
+	count      uint32
+	errText    string
+	authErr    error
+	authCalls  []vxCall
+	flushed    []*SrvReq
+	flushCall  bool // FlushOp calls req.Flush()
+	hook       func(op string, req *SrvReq)
+	opened     int
+	closed     int
+	lockViol   int
+	echo       bool
 	mu         sync.Mutex // the implementation's own lock (gives its FlushOp a happens-before edge to its workers)
 	inprogress map[*SrvReq]bool
-	savedCh   chan *SrvReq // requests the implementation left unanswered (outcome vxOutNone)
-	gate      map[uint16]chan bool // per-tag gates: the implementation parks until released
-	onDestroy func(fid *SrvFid)    // optional: called from FidDestroy after the fid was logged
+	savedCh    chan *SrvReq         // requests the implementation left unanswered (outcome vxOutNone)
+	gate       map[uint16]chan bool // per-tag gates: the implementation parks until released
+	onDestroy  func(fid *SrvFid)    // optional: called from FidDestroy after the fid was logged
 }
 
 func (o *vxOps) note(op string, req *SrvReq) {
@@ -147,6 +148,14 @@ func (o *vxOps) answer(req *SrvReq, ok func()) {
 	case vxOutTwice:
 		ok()
 		ok()
+	case vxOutTwiceConc:
+		fin := make(chan bool, 1)
+		go func() {
+			ok()
+			fin <- true
+		}()
+		ok()
+		<-fin
 	}
 }
 
